@@ -62,7 +62,7 @@ def regen(which=None):
     """run the translators; returns {name: (ok, message)}"""
     res = {}
     for name, cmd in TRANSLATORS.items():
-        if which and name not in which:
+        if which is not None and name not in which:
             continue
         if not os.path.exists(cmd[1]):
             continue
